@@ -9,6 +9,7 @@ struct Ctx {
   uint64_t seed;
   long long shard, nshards, start, only;
   long long idx = -1;
+  bool ambient = false; // vary the progress printer and the size argument per case (ops::set_ambient)
   Ctx(int argc, char **argv) : args(argc, argv) {
     thorough = args.s("tier", "quick") == "thorough";
     seed = (uint64_t)args.n("seed", 1);
@@ -21,6 +22,7 @@ struct Ctx {
   // advance the global case counter; true if this process must run the case
   bool take() {
     idx++;
+    if (ambient) ops::set_ambient((long long)(vh::mix(seed ^ 0xA3B1, (uint64_t)idx) >> 7 & 0xFFFFFF));
     if (only >= 0) return idx == only;
     return idx >= start && (idx % nshards) == shard;
   }
